@@ -1,9 +1,9 @@
 (* C10 — shared codecs and schema caches are safe for concurrent use.
    Only statements, closed by [exact lemma], with Print Assumptions beneath. *)
 From Coq Require Import String List NArith Bool.
-From J5V.model Require Import Conc ConcSites ConcCorr.
+From J5V.model Require Import Conc ConcSites ConcCorr ConcRace.
 From J5V.gen Require ConcGen.
-From J5V.proofs Require Import ConcProofs ConcInvProofs ConcTermProofs ConcMainProofs.
+From J5V.proofs Require Import ConcProofs ConcInvProofs ConcTermProofs ConcMainProofs ConcRaceProofs.
 Import ListNotations.
 Local Open Scope N_scope.
 
@@ -97,6 +97,69 @@ Proof.
   intros t Ht. cbn in Ht.
   destruct t as [|[|[|t]]]; cbn; try tauto. exfalso. Lia.lia.
 Qed.
+
+(* ---- the property at full strength ------------------------------------------------------ *)
+(* logic level: for every type universe, every list of calls per thread (any number of
+   threads), every depth of observation —
+   every schedule: the completed calls returned their solo results; while a call is
+   outstanding some thread can take a state-changing step (no deadlock);
+   every fair schedule of fuel_bound rounds completes all calls with their solo results *)
+Definition C10_logic_statement (d : disc) : Prop :=
+  forall k g calls,
+    (forall sched t, exists j, nth t (results (run d k g calls sched)) [] =
+                               map (result_solo k g) (firstn j (nth t calls []))) /\
+    (forall sched, all_done (run d k g calls sched) = false ->
+       exists t, (t < length calls)%nat /\ gstep d k g t (run d k g calls sched) <> run d k g calls sched) /\
+    (forall rounds, Forall (covers (length calls)) rounds -> (fuel_bound g calls <= length rounds)%nat ->
+       all_done (run d k g calls (concat rounds)) = true /\
+       results (run d k g calls (concat rounds)) = map (map (result_solo k g)) calls).
+
+(* memory level: the accesses of any run — to the schema map, to SchemaCache.registered,
+   to the To field of every RefSchema, inside Schema and by the callers that walk the
+   returned schema afterwards — are free of data races under happens-before = program
+   order + "Unlock is synchronized before a later Lock" (the Go memory model's rule for
+   sync.Mutex), and every To field is written once *)
+Definition C10_memory_statement (d : disc) : Prop :=
+  forall k g calls sched,
+    race_free (events d k g calls sched) /\ write_once (events d k g calls sched).
+
+Definition C10_full_statement (d : disc) : Prop := C10_logic_statement d /\ C10_memory_statement d.
+
+Theorem C10_logic_guarded : C10_logic_statement Guarded.
+Proof.
+  intros k g calls. split; [|split].
+  - intros sched t. apply guarded_results.
+  - intros sched H. destruct (guarded_progress k g calls sched H) as (t & H1 & _ & H3). exists t. split; assumption.
+  - intros rounds. apply guarded_fair_complete.
+Qed.
+Print Assumptions C10_logic_guarded.
+
+(* PARTIAL with respect to the Go program: this is a theorem about the model's access
+   events.  That these are all of the Go code's accesses rests on the translator's token
+   tables (C10_cache_methods_agree) and on race-detector exploration; the Go memory model
+   itself (the mutex rule encoded in [ordered]; data-race-free programs behave
+   sequentially consistently, hence no torn reads and no 'concurrent map writes') is not
+   formalised — the model's map operations are atomic by construction. *)
+Theorem C10_memory_guarded_partial : C10_memory_statement Guarded.
+Proof. exact guarded_race_free. Qed.
+Print Assumptions C10_memory_guarded_partial.
+
+(* the full statement holds of the guarded discipline, which is the one the code follows *)
+Theorem C10_full_for_code : C10_full_statement code_disc.
+Proof. rewrite code_disc_guarded. split; [exact C10_logic_guarded | exact guarded_race_free]. Qed.
+Print Assumptions C10_full_for_code.
+
+(* and fails without the lock, on both levels *)
+Theorem C10_full_unguarded_refuted : ~ C10_logic_statement Unguarded /\ ~ C10_memory_statement Unguarded.
+Proof.
+  split.
+  - intros H. destruct (H 3%nat w1_graph w1_calls) as (H1 & _).
+    destruct (H1 w1_sched 1%nat) as (j & Hj).
+    destruct unguarded_refuted_root as (E & _). rewrite E in Hj.
+    destruct j as [|j]; cbn in Hj; [discriminate|]. inversion Hj.
+  - intros H. apply unguarded_has_race. apply H.
+Qed.
+Print Assumptions C10_full_unguarded_refuted.
 
 (* ---- without the lock the property fails ----------------------------------- *)
 Theorem C10_unguarded_refuted :
